@@ -17,20 +17,21 @@ the witness violates exactly ONE of the explicit hypotheses of `S2S/Spec/Registr
 
 * `C08_identity_checked_registries` — no hypothesis: the two identity-checked registries never keep or lose a
   foreign entry, in any interleaving, for any configuration;
-* `C08_partial_no_crash` — no send reaches a closed channel outside `recover`                    (`ReplayOK`);
-* `C08_partial_cleanup_owns` — a clean-up removes only its own entries              (`StampsOK`, `UnregOK`, `RecvOK`);
+* `C08_no_crash` — no hypothesis: no send reaches a closed channel outside `recover`, in any interleaving
+  (true since the fix of C08-replay-send-on-closed-channel; before it: `C08_refuted_before_fix_replay_send_on_closed_channel`);
+* `C08_partial_cleanup_owns` — a clean-up removes only its own entries                        (`StampsOK`, `RecvOK`);
 * `C08_partial_all_done_empty` — when every stream has ended nothing is registered            (`RecvOK`, `OpenOK`);
 * `C08_partial_exact_at_quiescence` — at quiescence every registry holds exactly the newest live incarnation
-                                                            (`StampsOK`, `UnregOK`, `RecvOK`, `OpenOK`, `OrderOK`);
-* `C08_partial` — all four together: `Good` for every run satisfying `AllHyps`.
+                                                                       (`StampsOK`, `RecvOK`, `OpenOK`, `OrderOK`);
+* `C08_partial` — all together: `Good` for every run satisfying `AllHyps`.
 
 Hypotheses (decidable predicates on (state, action), threaded along the run by `Along`):
-`StampsOK` two registrations of a shard see different clock values (environment);  `UnregOK` no `addLocalShard` of a
-shard between the two deletes of an `UnregisterShard` of that shard (window ii);  `ReplayOK` no other incarnation
-replaces a shard's channel during a `RegisterShard` of the shard, no remote announcement while the local channel is
-closed but registered (window iii);  `RecvOK` receiver start-ups and un-cancelled receiver clean-ups of a shard are
-serial (windows iv, vii);  `OpenOK` the receiver's upstream stream opens (window v);  `OrderOK` the incarnations of a
-shard start in the order in which their streams were opened (windows vi, viii).
+`StampsOK` two registrations of a shard see different clock values (environment);  `RecvOK` receiver start-ups and
+un-cancelled receiver clean-ups of a shard are serial (windows iv, vii);  `OpenOK` the receiver's upstream stream opens
+(window v);  `OrderOK` the incarnations of a shard start in the order in which their streams were opened (windows vi,
+viii).  The two hypotheses that existed only because of repaired defects are gone from every theorem: `UnregOK`
+(window ii, second delete of `UnregisterShard`) and `ReplayOK` (window iii, replay send without `recover`); their
+definitions remain in the Spec only to say what the two before-fix witnesses do.
 -/
 namespace S2S.Registry
 
@@ -42,7 +43,7 @@ def C08_full (c : Cfg) : Prop := ∀ acts : List Act, Good (run c State.init act
 
 /-- all hypotheses together -/
 def AllHyps (σ : State) (a : Act) : Prop :=
-  StampsOK σ a ∧ UnregOK σ a ∧ ReplayOK σ a ∧ RecvOK σ a ∧ OpenOK σ a ∧ OrderOK σ a
+  StampsOK σ a ∧ RecvOK σ a ∧ OpenOK σ a ∧ OrderOK σ a
 
 instance (σ : State) (a : Act) : Decidable (AllHyps σ a) := by unfold AllHyps; exact inferInstance
 
@@ -61,17 +62,17 @@ theorem C08_identity_checked_registries (c : Cfg) (acts : List Act) :
     (AllDone σ → ∀ sh, aget σ.sendChans sh = none ∧ aget σ.ackChans sh = none) :=
   channels_never_left_behind c acts
 
-/-- **no crash** (window (iii) excluded): for the current `recover` guards, a run in which no other incarnation
-    replaces a shard's channel during a `RegisterShard` of that shard, and no remote announcement arrives while the
-    local channel is closed but still registered, never sends on a closed channel outside `recover`. -/
-theorem C08_partial_no_crash (acts : List Act) (h : Along Cfg.cur ReplayOK State.init acts) :
-    (run Cfg.cur State.init acts).crashed = false :=
-  (invCrash_run rfl rfl acts h).ok
+/-- **no crash**, no hypothesis: every send site of the current tree is guarded by `recover`, so in EVERY interleaving
+    — including a watermark replay that finds the closed, still registered channel of a sender that is shutting down —
+    no send on a closed channel escapes. -/
+theorem C08_no_crash (acts : List Act) : (run Cfg.cur State.init acts).crashed = false :=
+  noCrash_run rfl rfl rfl acts
 
-/-- **clean-up removes only its own entries** (windows (ii), (iv), (vii) excluded, stamps distinct) -/
+/-- **clean-up removes only its own entries** (windows (iv), (vii) excluded, stamps distinct).  The second delete of
+    `UnregisterShard` is gone, so no hypothesis about `UnregisterShard` is needed any more. -/
 theorem C08_partial_cleanup_owns (acts : List Act) (h : Along Cfg.cur OwnHyp State.init acts) :
     (run Cfg.cur State.init acts).stolen = [] :=
-  (invOwn_run rfl acts h).clean
+  (invOwn_run rfl rfl acts h).clean
 
 /-- **nothing remains** (additionally window (v) excluded; windows (iv), (vii) matter only for `activeReceivers`): when every
     incarnation has ended all five registries are empty -/
@@ -85,14 +86,13 @@ theorem C08_partial_exact_at_quiescence (acts : List Act) (h : Along Cfg.cur Exa
     Quiescent (run Cfg.cur State.init acts) → Exact (run Cfg.cur State.init acts) :=
   exact_at_quiescence acts h
 
-/-- **C08 under the explicit hypotheses**: every run of the current tree that avoids the windows is good -/
+/-- **C08 under the explicit hypotheses**: every run of the current tree that avoids the remaining four windows is good -/
 theorem C08_partial (acts : List Act) (h : Along Cfg.cur AllHyps State.init acts) :
     Good (run Cfg.cur State.init acts) :=
-  ⟨C08_partial_no_crash acts (along_mono (fun _ _ h => h.2.2.1) acts _ h),
-   C08_partial_cleanup_owns acts (along_mono (fun _ _ h => ⟨h.1, h.2.1, h.2.2.2.1⟩) acts _ h),
-   C08_partial_exact_at_quiescence acts
-     (along_mono (fun _ _ h => ⟨h.1, h.2.1, h.2.2.2.1, h.2.2.2.2.1, h.2.2.2.2.2⟩) acts _ h),
-   C08_partial_all_done_empty acts (along_mono (fun _ _ h => ⟨h.2.2.2.1, h.2.2.2.2.1⟩) acts _ h)⟩
+  ⟨C08_no_crash acts,
+   C08_partial_cleanup_owns acts (along_mono (fun _ _ h => ⟨h.1, h.2.1⟩) acts _ h),
+   C08_partial_exact_at_quiescence acts h,
+   C08_partial_all_done_empty acts (along_mono (fun _ _ h => ⟨h.2.1, h.2.2.1⟩) acts _ h)⟩
 
 /-! ## witnesses (every one is replayed on the real code by `go/eng/c08_registry_test.go`) -/
 
@@ -106,7 +106,8 @@ def upTerm (i : Tok) : List Act :=
 def downS (i : Tok) : List Act := [.sClose i, .sUnregCheck i, .sUnregAgain i, .sRmChan i]
 def downR (i : Tok) : List Act := [.rRmAck i, .rCheck i, .rRmOwnCancel i, .rUnregActive i]
 
-/-- what a witness shows: the outcome, and which hypotheses its run satisfies -/
+/-- what a witness shows: the outcome, and which hypotheses its run satisfies (`unreg`, `replay`: the two historic
+    windows, closed by fixes — no theorem of the current tree needs them) -/
 structure Verdict where
   (crashed stoleForeign quiescent exact201 allDone empty201 : Bool)
   (stamps unreg replay recv opens order : Bool)
@@ -120,15 +121,16 @@ def verdict (c : Cfg) (w : List Act) : Verdict :=
     replay := decide (Along c ReplayOK State.init w), recv := decide (Along c RecvOK State.init w),
     opens := decide (Along c OpenOK State.init w), order := decide (Along c OrderOK State.init w) }
 
-/-- window (ii): incarnation 0 sits between the two deletes of `UnregisterShard`, incarnation 1 registers, the second
-    delete wipes its entry -/
+/-- window (ii), BEFORE ITS FIX: incarnation 0 sits between the two deletes of `UnregisterShard`, incarnation 1 registers, the
+    second delete wipes its entry.  (On the current tree the same schedule is harmless: there is no second delete.) -/
 def wUnreg : List Act :=
   [.open 201 1] ++ up 0 ++ [.brk 0, .sNotice 0, .sClose 0, .sUnregCheck 0] ++ downR 0 ++
   [.open 201 1, .rGet 1, .sSet 1, .tick, .sAdd 1, .sUnregAgain 0, .sRmChan 0,
    .sSnap 1, .sNotifyDone 1, .rOpen 1 true, .rSetAck 1, .rSetCancel 1, .rRegActive 1]
 
-/-- window (iii): a receiver holds a watermark; incarnation 1 of shard 201 is inside `RegisterShard`, incarnation 2
-    replaces the channel, runs and closes it; incarnation 1's replay finds the closed channel: send without `recover` -/
+/-- window (iii), BEFORE ITS FIX: a receiver holds a watermark; incarnation 1 of shard 201 is inside `RegisterShard`,
+    incarnation 2 replaces the channel, runs and closes it; incarnation 1's replay finds the closed channel: a send
+    without `recover`.  (On the current tree the send is caught.) -/
 def wReplay : List Act :=
   [.open 101 2] ++ up 0 ++ [.wm 0,
    .open 201 1, .rGet 1, .sSet 1, .tick, .sAdd 1, .rOpen 1 true, .rSetAck 1, .rSetCancel 1, .rRegActive 1,
@@ -173,15 +175,23 @@ def wStamps : List Act :=
 def wReconnect : List Act :=
   [.open 201 1] ++ up 0 ++ [.open 201 1] ++ upTerm 1 ++ [.rNotice 0] ++ downS 0 ++ downR 0
 
-theorem C08_refuted_unregister_double_delete :
-    verdict Cfg.cur wUnreg =
+/-- **fixed finding C08-unregister-double-delete**: before the fix the schedule lost incarnation 1's `localShards` entry
+    (only the historic hypothesis `UnregOK` is violated); on the current tree the same schedule ends exactly registered. -/
+theorem C08_refuted_before_fix_unregister_double_delete :
+    verdict Cfg.beforeUnregFix wUnreg =
       { crashed := false, stoleForeign := true, quiescent := true, exact201 := false, allDone := false, empty201 := false,
+        stamps := true, unreg := false, replay := true, recv := true, opens := true, order := true } ∧
+    verdict Cfg.cur wUnreg =
+      { crashed := false, stoleForeign := false, quiescent := true, exact201 := true, allDone := false, empty201 := false,
         stamps := true, unreg := false, replay := true, recv := true, opens := true, order := true } := by decide
 
-theorem C08_refuted_replay_send_on_closed_channel :
-    verdict Cfg.cur wReplay =
+/-- **fixed finding C08-replay-send-on-closed-channel**: before the fix the schedule crashed the process (only the historic
+    hypothesis `ReplayOK` is violated); on the current tree the same send is swallowed by `recover`. -/
+theorem C08_refuted_before_fix_replay_send_on_closed_channel :
+    verdict Cfg.beforeReplayFix wReplay =
       { crashed := true, stoleForeign := false, quiescent := false, exact201 := false, allDone := false, empty201 := false,
-        stamps := true, unreg := true, replay := false, recv := true, opens := true, order := true } := by decide
+        stamps := true, unreg := true, replay := false, recv := true, opens := true, order := true } ∧
+    (run Cfg.cur State.init wReplay).crashed = false ∧ (run Cfg.cur State.init wReplay).caught = 1 := by decide
 
 theorem C08_refuted_cleanup_check_then_remove :
     verdict Cfg.cur wCleanup =
@@ -216,9 +226,9 @@ theorem C08_refuted_before_fix :
       { crashed := false, stoleForeign := true, quiescent := true, exact201 := false, allDone := false, empty201 := false,
         stamps := true, unreg := true, replay := true, recv := true, opens := true, order := true } := by decide
 
-/-- the full statement is false of the current tree -/
+/-- the full statement is false of the current tree (four windows remain; here: window (iv)) -/
 theorem C08_refuted : ¬ C08_full Cfg.cur := fun h => by
-  have := (h wReplay).1
+  have := (h wCleanup).2.1
   revert this; decide
 
 /-! ## non-vacuity -/
